@@ -2590,6 +2590,35 @@ class Interp:
                 and f.attr in self.OTHER_MUTATORS:
             yield from self._container_mutation(node, f.value.id, f.attr, st)
             return
+        if isinstance(f, ast.Attribute) and isinstance(f.value, ast.Attribute) \
+                and isinstance(f.value.value, ast.Name) and f.value.value.id == 'self' \
+                and isinstance(st.env.get('self'), ObjRef) \
+                and isinstance(st.fields.get(('self', f.value.attr)), (Tup, DictV)) \
+                and f.attr in self.OTHER_MUTATORS and not node.keywords \
+                and not any(isinstance(a, ast.Starred) for a in node.args) \
+                and self.hooks.field(st.env['self'], f.value.attr, st) is None:
+            # self.table.append(x) on a container the analysis has followed so far: the field
+            # holds the updated container afterwards (forgotten when the update is not modelled)
+            key = ('self', f.value.attr)
+            for args, s2 in self.ev_seq(list(node.args), st):
+                if s2.raised:
+                    yield None, s2
+                    continue
+                cur = s2.fields[key]
+                res, new = self._mutated(cur, f.attr, args, {})
+                if res == 'raise':
+                    yield None, s2.raising(new)
+                    continue
+                eff = Effect('call', Bound(Opaque('self.' + f.value.attr, (), 'list'), f.attr),
+                             tuple(args), node.lineno, self.cur.qualname)
+                if new is None:
+                    ty = 'dict' if isinstance(cur, DictV) else 'list'
+                    yield Opaque('m:' + f.attr, (cur,) + tuple(args)), s2.setfield(
+                        key, Opaque('havoc:self.%s@%d' % (f.value.attr, node.lineno), (), ty)
+                    ).effect(eff)
+                    continue
+                yield res, s2.setfield(key, new).effect(eff)
+            return
         if isinstance(f, ast.Attribute) and isinstance(f.value, ast.Subscript) \
                 and isinstance(f.value.value, ast.Name) \
                 and isinstance(st.env.get(f.value.value.id), (Tup, DictV)) \
